@@ -167,6 +167,14 @@ func lift(fn *Function) bool {
 	usesDefer := false
 	deferstackAlloc, deferstackCall := deferstackPreamble(fn)
 	eliminateDeferStack := deferstackAlloc != nil && !deferstackAlloc.Heap
+	if deferstackAlloc != nil && deferstackAlloc.Heap {
+		// The defer stack escapes into the yield function of a
+		// range-over-func loop, whose body pushes its deferred calls
+		// onto this function's stack (Defer.DeferStack). The function
+		// then runs deferred calls even though it contains no Defer
+		// instruction itself, so its rundefers must stay.
+		usesDefer = true
+	}
 
 	// Determine which allocs we can lift and number them densely.
 	// The renaming phase uses this numbering for compact maps.
